@@ -156,6 +156,51 @@ def extras(tier, which, spelling, urikey):
     return out
 
 
+# quantity (the 3rd, 11th, 12th ... item of a kind): string-only and mixed lists of values that are pairwise
+# different under Python equality
+DISTINCT_STRINGS = ["s_a", "s_quote", "s_bslash", "s_tab", "s_uni", "s_markup", "s_pad", "s_exx", "s_provx", "s_True",
+                    "s_1", "s_nl"]
+DISTINCT_MIXED = ["s_a", "i_2", "f_2_5", "b_T", "d_naive", "u_plain", "l_lang", "q_exA", "q_exB", "i_neg", "s_uni",
+                  "l_exdt", "d_530", "i_big", "u_urn", "s_1", "q_fooC", "f_1e300", "l_short", "s_quote", "d_us",
+                  "l_lang_nl", "s_tab", "b_F", "f_min", "s_markup"]
+
+
+def quantities(tier):
+    return (3, 11, 12) if tier != "thorough" else (3, 10, 11, 12, 26, 101)
+
+
+def quantity_cases(tier, env, prelude, scope, spelling, urikey):
+    out = []
+    nm = lambda l: (urikey, l, spelling)
+    k = nm("k")
+    for n in quantities(tier):
+        tag = "%s|quantity-%d|" % (env, n)
+        ents = ()
+        for i in range(n):
+            ents += (("el", scope, "entity", nm("n%d" % i)), ("at", k, "s_a"))
+        out.append((tag + "entities", prelude + ents))
+        out.append((tag + "anonymous-generations", prelude + tuple(
+            ("rel", scope, "generation", None, (nm("e%d" % i), nm("a1"), None)) for i in range(n))))
+        out.append((tag + "identical-anonymous-usages", prelude + tuple(
+            ("rel", scope, "usage", None, (nm("a1"), nm("e1"), None)) for i in range(n))))
+        out.append((tag + "identified-derivations", prelude + tuple(
+            ("rel", scope, "derivation", nm("d%d" % i), (nm("e%d" % (i + 1)), nm("e%d" % i), None, None, None)) for i in range(n))))
+        out.append((tag + "attribute-names", prelude + (("el", scope, "entity", nm("r1")),) + tuple(
+            ("at", nm("k%d" % i), "s_a") for i in range(n))))
+        for lname, lst in (("strings", DISTINCT_STRINGS), ("mixed", DISTINCT_MIXED)):
+            if n <= len(lst):
+                out.append((tag + "values-of-one-attribute-" + lname, prelude + (("el", scope, "entity", nm("r1")),) + tuple(
+                    ("at", k, v) for v in lst[:n])))
+                out.append((tag + "prov-types-" + lname, prelude + (("el", scope, "entity", nm("r1")),) + tuple(
+                    ("at", PROV_ATTR_NAMES[0], v) for v in lst[:n])))
+        if scope == "D":
+            buns = ()
+            for i in range(n):
+                buns += (("bun", "Q%d" % i, nm("qb%d" % i)), ("el", "Q%d" % i, "entity", nm("x")), ("at", k, "s_a"))
+            out.append((tag + "bundles", prelude + buns))
+    return out
+
+
 REP_SHAPES = [("entity", ()), ("activity", ("t1", None)), ("generation", (True, True, True)),
               ("attribution", (True, True)), ("membership", (True, True))]
 
@@ -212,6 +257,8 @@ def cases(tier):
                 rec = shape_ops(scope, spelling, urikey, kind, mask, "id", "run:42")
                 k = (urikey, "k", spelling)
                 out.append(("%s|%s|id|colon-in-local-part" % (env, kind), prelude + (rec, ("at", k, "q_colon"), ("at", k, "s_a"))))
+        # (4) quantity
+        out.extend(quantity_cases(tier, env, prelude, scope, spelling, urikey))
     return out
 
 
